@@ -126,7 +126,9 @@ def main():
         if impl is not None and any(k == "B" and b"\xef\xbf\xbd" in v for k, v in impl):
             run.count("malformed_skipped_utf8")
             continue
-        if isinstance(ex, MemoryError):
+        if isinstance(ex, MemoryError) or (ex is not None and any(
+                s in str(ex) for s in ("Maximum allowed dimension", "array is too big", "negative dimensions",
+                                       "too large", "cannot fit"))):
             # a corrupted count asks NumPy for an impossible allocation: resource behaviour, not logic
             run.count("malformed_skipped_memoryerror")
             continue
